@@ -20,6 +20,7 @@ import (
 	"bytes"
 	"errors"
 	"fmt"
+	"math"
 	"regexp"
 	"sort"
 	"strconv"
@@ -371,6 +372,10 @@ func (ctx *Context) evaluate() {
 	var details []BufferSpan
 	numOpCountAdd := func(count IntType) bool {
 		e.NumOpCount += count
+		if count < 0 || e.NumOpCount < 0 {
+			// 溢出或非法的计数按最大值处理，保证后面的上限检查生效
+			e.NumOpCount = IntType(math.MaxInt)
+		}
 		if ctx.Config.OpCountLimit > 0 && e.NumOpCount > ctx.Config.OpCountLimit {
 			ctx.Error = errors.New("允许算力上限")
 			return true
